@@ -1,4 +1,6 @@
 import CppUModel.Proofs.TeamCityRun
+import CppUModel.Proofs.TeamCityParse
+import CppUModel.Proofs.TeamCityStream
 /-!
 # C20 — TeamCity output is a balanced, correctly escaped service-message stream
 
@@ -47,26 +49,26 @@ theorem value_ends_at_its_quote (v rest : Bytes) :
     list is the rendering of its message list (`Msg.render` escapes every name, location and
     message value; durations are digits).  In particular the failure location
     `TEST failed (file:line): file:line` is the escape of the plain location text. -/
-theorem all_values_escaped (evs : List Ev) : stream evs = renderAll (messages evs) :=
-  (fold_renders evs {}).1
+theorem all_values_escaped (vv : Bool) (evs : List Ev) : streamV vv evs = renderAll (messagesV vv evs) :=
+  (fold_renders evs _).1
 
 /-- The messages of every run pair up: each suite start has its finish, each test start inside
     a suite has its finish, ignored and failed messages name the open test, nothing stays open —
     for every registry (any number of groups and tests, any pass/fail/ignore pattern, any name
     filter) in which no group name is empty. -/
-theorem messages_balanced (flt : Option Filter) (tests : List Script)
-    (hne : ∀ t ∈ tests, t.info.group ≠ []) : balanced (messages (runAll flt tests)) = true := by
-  have h := loop_balanced flt tests true 0 {} {} .idle hne (Or.inl ⟨rfl, rfl⟩)
+theorem messages_balanced (vv : Bool) (flt : Option Filter) (tests : List Script)
+    (hne : ∀ t ∈ tests, t.info.group ≠ []) : balanced (messagesV vv (runAll flt tests)) = true := by
+  have h := loop_balanced flt tests true 0 {} { veryVerbose := vv } .idle hne (Or.inl ⟨rfl, rfl⟩)
   simp only [runB] at h
-  simp [balanced, messages, runAll, foldEvents, msgStep, msgsOf, step, msgsFrom] at h ⊢
+  simp [balanced, messagesV, runAll, foldEvents, msgStep, msgsOf, step, msgsFrom] at h ⊢
   exact h
 
 /-- Each failure message is emitted while a test is open and carries that test's name — for every
-    registry, without any condition on the names. -/
-theorem failure_belongs_to_open_test (flt : Option Filter) (tests : List Script) :
-    failuresInOpenTest none (messages (runAll flt tests)) = true := by
-  have h := loop_failures_open flt tests true 0 {} {} none
-  simpa [messages, runAll, foldEvents, msgStep, msgsOf, step, msgsFrom] using h
+    registry, without any condition on the names, in the default and in the very verbose mode. -/
+theorem failure_belongs_to_open_test (vv : Bool) (flt : Option Filter) (tests : List Script) :
+    failuresInOpenTest none (messagesV vv (runAll flt tests)) = true := by
+  have h := loop_failures_open flt tests true 0 {} { veryVerbose := vv } none
+  simpa [messagesV, runAll, foldEvents, msgStep, msgsOf, step, msgsFrom] using h
 
 /-- An ignored test is flagged: its messages are exactly started, ignored, finished. -/
 theorem ignored_flagged (t : Script) (r : R) (s : St) (h : t.info.willRun = false) :
@@ -74,44 +76,35 @@ theorem ignored_flagged (t : Script) (r : R) (s : St) (h : t.info.willRun = fals
       [.testStarted t.info.name, .testIgnored t.info.name, .testFinished t.info.name 0] := by
   simp [testEvs, h, msgsFrom_cons, msgsFrom_nil, msgsOf, step]
 
-theorem acts_not_flagged (t : TestInfo) : ∀ (acts : List Act) (s : St) (x : Bytes),
-    Msg.testIgnored x ∉ msgsFrom s (actEvs t acts)
-  | [], s, x => by simp [actEvs, msgsFrom_nil]
-  | .print f l y :: as, s, x => by
-    simpa [actEvs, msgsFrom_cons, msgsOf, step] using acts_not_flagged t as s x
-  | .fail f l m :: as, s, x => by
-    simpa [actEvs, msgsFrom_cons, msgsOf, step] using acts_not_flagged t as s x
-  | .failMsg m :: as, s, x => by
-    simpa [actEvs, msgsFrom_cons, msgsOf, step] using acts_not_flagged t as s x
-  | .failLoc f l :: as, s, x => by
-    simpa [actEvs, msgsFrom_cons, msgsOf, step] using acts_not_flagged t as s x
-  | .failExit f l m :: _, s, x => by simp [actEvs, msgsFrom_cons, msgsFrom_nil, msgsOf]
-  | .postFail _ :: as, s, x => by simpa [actEvs] using acts_not_flagged t as s x
-  | .checks _ :: as, s, x => by simpa [actEvs] using acts_not_flagged t as s x
-  | .tick _ :: as, s, x => by simpa [actEvs] using acts_not_flagged t as s x
-
-theorem post_not_flagged (t : TestInfo) : ∀ (acts : List Act) (s : St) (x : Bytes),
-    Msg.testIgnored x ∉ msgsFrom s (postEvs t acts)
-  | [], s, x => by simp [postEvs, msgsFrom_nil]
-  | .postFail m :: as, s, x => by
-    simpa [postEvs, msgsFrom_cons, msgsOf, step] using post_not_flagged t as s x
-  | .print _ _ _ :: as, s, x => by simpa [postEvs] using post_not_flagged t as s x
-  | .fail _ _ _ :: as, s, x => by simpa [postEvs] using post_not_flagged t as s x
-  | .failExit _ _ _ :: as, s, x => by simpa [postEvs] using post_not_flagged t as s x
-  | .failMsg _ :: as, s, x => by simpa [postEvs] using post_not_flagged t as s x
-  | .failLoc _ _ :: as, s, x => by simpa [postEvs] using post_not_flagged t as s x
-  | .checks _ :: as, s, x => by simpa [postEvs] using post_not_flagged t as s x
-  | .tick _ :: as, s, x => by simpa [postEvs] using post_not_flagged t as s x
+theorem inner_not_flagged (t : TestInfo) : ∀ (l : List Ev) (s : St) (x : Bytes), InnerOK t l →
+    Msg.testIgnored x ∉ msgsFrom s l
+  | [], s, x, _ => by simp [msgsFrom_nil]
+  | e :: es, s, x, h => by
+    have he : okEv t e := h e (List.mem_cons_self ..)
+    have ih := fun s' => inner_not_flagged t es s' x (fun y hy => h y (List.mem_cons_of_mem _ hy))
+    rw [msgsFrom_cons]
+    simp only [List.mem_append, not_or]
+    refine ⟨?_, ih _⟩
+    cases e with
+    | print y => simp [msgsOf]
+    | veryVerbose y => cases hv : s.veryVerbose <;> simp [msgsOf, hv]
+    | failure f => simp [msgsOf]
+    | testsStarted => exact absurd he (by simp [okEv])
+    | groupStarted _ => exact absurd he (by simp [okEv])
+    | testStarted _ => exact absurd he (by simp [okEv])
+    | testEnded _ _ => exact absurd he (by simp [okEv])
+    | groupEnded _ => exact absurd he (by simp [okEv])
+    | testsEnded _ => exact absurd he (by simp [okEv])
 
 /-- A test that runs is never flagged as ignored. -/
 theorem running_test_not_flagged (t : Script) (r : R) (s : St) (h : t.info.willRun = true) (x : Bytes) :
     Msg.testIgnored x ∉ msgsFrom s (testEvs t r) := by
   simp only [testEvs, h, if_true]
-  show Msg.testIgnored x ∉ msgsFrom s ([Ev.testStarted t.info] ++ (actEvs t.info t.acts ++ (postEvs t.info t.acts ++ [Ev.testEnded _ _])))
-  rw [msgsFrom_append, msgsFrom_append, msgsFrom_append]
+  show Msg.testIgnored x ∉ msgsFrom s ([Ev.testStarted t.info] ++ (testInner t.info t.acts ++ [Ev.testEnded _ _]))
+  rw [msgsFrom_append, msgsFrom_append]
   simp only [List.mem_append, not_or]
-  refine ⟨by simp [msgsFrom_cons, msgsFrom_nil, msgsOf, h], acts_not_flagged _ _ _ _, post_not_flagged _ _ _ _, ?_⟩
-  generalize stAfter (stAfter _ (actEvs t.info t.acts)) (postEvs t.info t.acts) = s'
+  refine ⟨by simp [msgsFrom_cons, msgsFrom_nil, msgsOf, h], inner_not_flagged _ _ _ _ (InnerOK_testInner _ _), ?_⟩
+  generalize stAfter _ (testInner t.info t.acts) = s'
   cases hc : s'.currTest <;> simp [msgsFrom_cons, msgsFrom_nil, msgsOf, hc]
 
 /-! ## which test a failure names, whoever constructs it -/
@@ -153,23 +146,75 @@ theorem location_prefix_cases (t : TestInfo) (f : Bytes) (l : Nat) (m : Bytes) :
     · rintro ⟨rfl, h2⟩
       simp [Nat.not_lt.mpr h2]
 
-/-! ## what is NOT proved -/
+/-! ## decoding the whole stream -/
 
-/-- FULL statement, not proved: the specification's own stream parser reads the rendering of any list
-    of service messages back into that list.  What is proved instead is the value level
-    (`value_ends_at_its_quote`: a reader can never leave a value early or late) and that the stream is
-    such a rendering (`all_values_escaped`); the parser itself (and a second one in Python) is run on
-    every stream the real code produces in the check. -/
+/-- The statement formerly left open: the specification's own stream parser reads the rendering of any
+    list of service messages (values arbitrary byte strings) back into exactly that list. -/
 def stream_parse_roundtrip_full : Prop :=
   ∀ ms : List Msg, (∀ m ∈ ms, ∀ raw, m ≠ .text raw) → TeamCity.parse (renderAll ms) = .ok ms
 
-/-- the proved part, per message: after the opening quote of ANY attribute of ANY rendered message a
-    reader gets the original value and continues right behind the closing quote -/
+theorem stream_parse_roundtrip : stream_parse_roundtrip_full := by
+  intro ms h
+  have hno : ∀ m ∈ ms, isTextMsg m = false := by
+    intro m hm
+    cases m <;> simp [isTextMsg]
+    exact absurd rfl (h _ hm _)
+  have htxt : textsNoHash ms := by
+    intro m hm raw hraw
+    exact absurd hraw (h m hm raw)
+  rw [parse_renderAll ms htxt, normFrom_no_text ms hno]
+
+/-- With text between the messages (test prints, progress trace, summary): as long as that text
+    contains no `#`, the parser returns the same messages with the same values; all it does to the
+    text is what any reader does — adjacent pieces are one piece, empty pieces are not there. -/
+theorem stream_parse_roundtrip_with_text (ms : List Msg) (h : textsNoHash ms) :
+    TeamCity.parse (renderAll ms) = .ok (normFrom [] ms) := parse_renderAll ms h
+
+/-- Decoding the real writer's output: for ANY event list whose raw text (test prints, -vv trace)
+    contains no `#`, in the default and the very verbose mode, parsing the byte stream yields the
+    message list of the run — every name, location and details value equal to the original, no
+    value ending early or late, nothing invented and nothing lost. -/
+theorem stream_decodes (vv : Bool) (evs : List Ev) (h : RawTextNoHash evs) :
+    TeamCity.parse (streamV vv evs) = .ok (normFrom [] (messagesV vv evs)) := by
+  rw [all_values_escaped]
+  exact parse_renderAll _ (texts_of_msgsFrom evs _ h)
+
+/-- The same for every run of the registry whose tests print no `#` (the progress trace and the
+    summary never contain one). -/
+theorem registry_stream_decodes (vv : Bool) (flt : Option Filter) (tests : List Script)
+    (h : ∀ sc ∈ tests, PrintsNoHash sc) :
+    TeamCity.parse (streamV vv (runAll flt tests)) = .ok (normFrom [] (messagesV vv (runAll flt tests))) :=
+  stream_decodes vv _ (raw_runAll flt tests h)
+
+/-- the attribute level of the same fact, kept from the earlier round -/
 theorem stream_parse_roundtrip_partial (key : String) (v rest : Bytes) :
     ∃ head, attr key v ++ rest = head ++ 39 :: (escapeRef v ++ 39 :: rest) ∧
       scanValue false (escapeRef v ++ 39 :: rest) [] = some (v, rest) := by
   refine ⟨[32] ++ lit key ++ [61], by simp [attr], ?_⟩
   rw [scanValue_escapeRef]; simp
+
+/-! ## text printed by tests (UT_PRINT) and the verbose modes
+
+`TestOutput::print` hands test-printed text to `printBuffer` as it is.  Every service message is
+written by ONE callback (`printCurrentTestStarted`, `printFailure`, …) in one go, and tests run
+between callbacks, so printed text, the `-vv` progress trace and the summary always lie BETWEEN
+messages, never inside one (`all_values_escaped`: the stream is a concatenation of whole items) — a
+`'` or `]` in printed text cannot close or corrupt a message.  `-v` changes nothing (the overridden
+callbacks ignore the verbosity).  What printed text CAN do is contain a complete service message of
+its own: -/
+
+def injectingRun : List Script :=
+  [{ info := { group := lit "g", name := lit "t", file := lit "f", line := 1, willRun := true },
+     acts := [.print (lit "f") 2 (lit "\n##teamcity[testFinished name='t' duration='0']\n")] }]
+
+/-- OBSERVATION (outside the quantifier of the property, which ranges over names, paths and failure
+    messages — not over text the test itself prints): a test that prints a line looking like a service
+    message puts that message into the stream; here the reader sees `testFinished` twice. -/
+theorem printed_text_can_inject_a_message :
+    (match TeamCity.parse (stream (runAll none injectingRun)) with
+     | .ok ms => balanced ms
+     | .error _ => true) = false := by
+  set_option maxRecDepth 1000000 in decide
 
 /-! ## observation outside the quantifier: the empty group name -/
 
